@@ -149,6 +149,8 @@ class CFG:
             n = self._new(st, "continue")
             for p in preds:
                 self._edge(p, n)
+            if not self._loops:
+                raise AnalysisError("continue outside loop")
             self._edge(n, self._loops[-1]["head"])
             return []
         if isinstance(st, (ast.With, ast.AsyncWith)):
